@@ -18,7 +18,7 @@ from . import common
 ID = "C14"
 LEVEL = "exploration"
 BATCH = 25
-PROBES_EXPECTED = ['probe:version-1', 'probe:version-2', 'probe:version-3', 'probe:restart-compared', 'probe:reply-with-error']
+PROBES_EXPECTED = ['probe:version-1', 'probe:version-2', 'probe:version-3', 'probe:restart-compared', 'probe:reply-with-error', 'probe:load-vs-restart-compared']
 TIERS = {"quick": {"runs": 12000, "wall": 50}, "thorough": {"runs": 250000, "wall": 840}}
 RULE = ("each run draws a program (plus test/kconfserver/Kconfig at low weight), protocol version 1-3, knobs (parser, policy, set-order salt), "
         "an initial sdkconfig (absent / tool-written in a reachable configuration / hand-written) and a session of 1-25 set / reset (options, "
@@ -56,6 +56,12 @@ def generate(r, tier):
     sc["initial"] = r.choice(["empty", "tool", "tool", "hand"])
     sc["reqs"] = srvgen.gen_requests(r, prog, r.randint(1, 25 if big else 18), sc["version"], hand_n=len(sc["hand"]), tool_n=len(sc["tool_prefix"]))
     sc["restart"] = r.random() < 0.5
+    if r.random() < 0.3:
+        # end on a pure `load`: "Send a load command or restart the server" are documented as equivalent (oracle c)
+        k2 = r.random()
+        spec = (None if k2 < 0.35 else ["tool", r.randrange(len(sc["tool_prefix"]))] if (k2 < 0.7 and sc["tool_prefix"])
+                else ["hand", r.randrange(len(sc["hand"]))] if sc["hand"] else None)
+        sc["reqs"].append({"load": spec})
     return sc
 
 
@@ -162,7 +168,7 @@ def execute(sc, ctx):
     version = sc["version"]
     replica = simpipe.Replica(version)
     sess = simpipe.Session(kpath, sdk, rn, version=version, parser=sc["parser"], policy=sc.get("policy"))
-    state = {"menu_ids": [], "loads": set(), "nontrivial": False, "last_save": None}
+    state = {"menu_ids": [], "loads": set(), "nontrivial": False, "last_save": None, "final_load": False}
     lines = list(sc["reqs"])
     if sc.get("restart"):
         lines = lines + [{"save": None}]
@@ -191,6 +197,15 @@ def execute(sc, ctx):
             ctx.counters["probe:reply-with-error"] += 1
         if "save" in d and "error" not in obj:
             state["last_save"] = i
+        if list(d) == ["load"] and "error" not in obj and i == len(sc["reqs"]) - 1:
+            # keep what was loaded (a later `save: null` overwrites the file in use)
+            src = _last_save_path(lines[: i + 1], sb, sdk)
+            try:
+                with builtins.open(src, "rb") as f, builtins.open(os.path.join(sb, "loaded_copy"), "wb") as g:
+                    g.write(f.read())
+                state["final_load"] = True
+            except OSError:
+                pass
 
     try:
         sess.run(next_line, on_reply)
@@ -215,6 +230,26 @@ def execute(sc, ctx):
     if d:
         ctx.violate(f"C14/replica-differs/{vtag}/{mechanism(k, d)}{inj}",
                     f"after {len(lines)} requests the client's replica differs from a newly started server's state: {d[:4]}")
+    # (c) a `load` is documented as equivalent to restarting the server on that file: the session ended on a pure load
+    if state.get("final_load"):
+        sess3 = simpipe.Session(kpath, os.path.join(sb, "loaded_copy"), rn, version=version, parser=sc["parser"], policy=sc.get("policy"))
+        try:
+            sess3.run(lambda s, i: None, None)
+            init = sess3.initial
+            snap3 = {"values": init.get("values", {}), "ranges": {a: tuple(b) for a, b in init.get("ranges", {}).items()},
+                     "visible": init.get("visible", {}), "defaults": init.get("defaults", {})}
+            if version == 1:
+                snap3 = simpipe.snapshot(sess3.k)
+            d3 = [x for x in compare(replica, snap3, version) if x not in d]
+            inj3 = "/injected-default" if (ops.injected(k) or ops.injected(sess3.k)) else ""
+            if d3:
+                ctx.violate(f"C14/load-differs-from-restart/{vtag}/{mechanism(sess3.k, d3)}{inj3}",
+                            f"after a `load` the client's replica differs from the initial state of a server started on the loaded file: {d3[:4]}")
+            ctx.counters["probe:load-vs-restart-compared"] += 1
+        except simpipe.ServerDied as e:
+            ctx.counters["op_raised:server-died-on-loaded-file/%s/%s" % (type(e.exc).__name__, e.fn)] += 1
+        except simpipe.ProtocolError as e:
+            ctx.counters["op_raised:protocol-load-restart/" + e.kind] += 1
     # (b) restart on the saved file
     if sc.get("restart") and state["last_save"] == len(lines) - 1:
         sess2 = simpipe.Session(kpath, _last_save_path(lines, sb, sdk), rn,
